@@ -78,7 +78,7 @@ def rule_read_build_agree(ctx):
         agg = None
         for bl in b.blocks:
             for s in bl["s"]:
-                if s["k"] == "assign" and s["p"]["l"] == 0 and s["r"]["k"] == "agg" and s["r"]["ak"] == "adt":
+                if s["k"] == "assign" and s["p"]["l"] in Q.ret_locals(b) and s["r"]["k"] == "agg" and s["r"]["ak"] == "adt":
                     agg = s["r"]
         if agg is None or agg["def"] not in ctx.F.adts and not agg["def"].startswith("zksync"):
             # enum-valued or delegated builds: nothing to compare field-wise
@@ -231,7 +231,7 @@ def rule_schema_gate(ctx):
         T = ctx.T(f)
         cfg = ctx.cfg(f)
         e = Q.success_edges(ctx, f, lambda b: b[0] == "call" and b[1].endswith("canonical::check"))
-        oks = [bi for bi, b in enumerate(f.blocks) for s in b["s"] if s["k"] == "assign" and s["p"]["l"] == 0 and s["r"]["k"] == "agg" and s["r"].get("variant") == "Ok"]
+        oks = [bi for bi, b in enumerate(f.blocks) for s in b["s"] if s["k"] == "assign" and s["p"]["l"] in Q.ret_locals(f) and s["r"]["k"] == "agg" and s["r"].get("variant") == "Ok"]
         ok = bool(e) and bool(oks) and all(cfg.must_pass(b, e) for b in oks)
         ctx.ob(R, "canonical::check before Ok", ok, "code generation succeeds only for schemas that passed the canonical-encoding check" if ok else "generate can succeed without canonical::check", f.loc())
 
